@@ -18,6 +18,7 @@ import (
 func TestMain(m *testing.M) {
 	vh.Rule("rapid: histories of 1..4 successive messages on channel 0 of a Conn over a capturing transport; per message a packet size (boundary set 256,257,511,512,513,1024,4096,65535 or uniform 256..65535, changed the way a server does it: an ENVCHANGE(PACKSIZE) response fed through Channel.WritePacket), a header type out of all PacketHeaderTypes, 1..6 packages of mixed types (LANGUAGE, DYNAMIC/2, MSG, LOGOUT, cursor packages, PARAMFMT+PARAMS) with one LANGUAGE sized so that the total length is k*(packetSize-8)+d (k 1..4, d in -1,0,+1) in half the cases, and a split of the calls into QueuePackage*+SendRemainingPackets or a final SendPackage; raw blob packages whose buffer the caller overwrites right after queueing; messages whose flush is attempted with a cancelled context (nothing may be written or left behind); exhaustive: packet sizes {256,257,512,513,1024,65535} x k 1..3 x d -1..1 x 3 package layouts x both flush styles. Oracle: expected bytes come from Package.WriteTo on an own flat BytesChannel; captured bytes must parse as packets (one Write per packet, header length = write size <= packet size in force, all but the last full, type and channel id right, EOM on the last packet of each message and on no other, bodies concatenate to the expected encoding, header type back to NORMAL afterwards). Non-trivial: the message spans >= 2 packets, or its length is an exact multiple of the packet body size, or the packet size changed before it; a history is non-trivial if one of its messages is; distinct by the (packet size, total length, layout, header type, flush style) of its non-trivial messages")
 	vh.Assume("channel 0 only (logical channels are covered with C12); no concurrency; error paths of a failing WriteTo are outside the statement; packet sizes 256..65535 (what a server may negotiate and the 16-bit header length can carry)")
+	vh.Rule("also: Info.DebugLogPackages is on in a quarter of the cases (every package is printed while it is sent / received)")
 	vh.QuietLog()
 	vh.Main(m, "C01")
 }
